@@ -1,9 +1,9 @@
 (* C04 — escaped output never lets data-supplied markup through.
-   Property theorems only; proofs in Proofs/EscapeProofs.v and Proofs/C04Proofs.v.
+   Property theorems only; proofs in Proofs/EscapeProofs.v, Proofs/C04Proofs.v and Proofs/C04ShapeProofs.v.
    M: Pug/Compile.v (renderExpression with wrap, rawmode) and Tmpl/Exec.v; S: the five-character escaper
    with its reader-side inverse, and the grammar EscText of harmless text. *)
 From PV Require Import Base.Bytes Base.Escape Js.Ast Tmpl.Value Tmpl.IR Tmpl.Exec Pug.Compile
-  Proofs.EscapeProofs Proofs.C04Proofs.
+  Proofs.EscapeProofs Proofs.C04Proofs Proofs.C04ShapeProofs.
 
 (* branch by branch: WHATEVER the expression (every constructor of the JS AST, any depth), an escaped
    buffered code node is lowered to static escaped text, a silent statement, `null`, or an action whose
@@ -12,6 +12,23 @@ Theorem C04_wrap_shape : forall (funcs : list bytes) (e : jexpr) (toks : list to
   (forall t, e <> JNumF t) -> cwrap funcs false e = Some toks -> printing_shape toks.
 Proof. exact cwrap_shape. Qed.
 Print Assumptions C04_wrap_shape.
+
+(* no choice for an expression that denotes a run-time VALUE (everything but the literals and the statements): if
+   escaped buffered code compiles at all, it compiles to ONE action whose pipeline ends in the escaper *)
+Theorem C04_value_escaped : forall (funcs : list bytes) (e : jexpr) (toks : list tok),
+  value_expr e = true -> cwrap funcs false e = Some toks ->
+  exists txt p, toks = [TAct txt false false (AcPipe p)] /\ ends_in_escaper p.
+Proof. exact cwrap_value_expr_escaped. Qed.
+Print Assumptions C04_value_escaped.
+
+(* in particular for EVERY binary operator and EVERY pair of operands — `x || 0`, `n > 0 && x`, `true && x`,
+   `(x || 0) + 1`: the compiler never concludes from the shape of an operand (number, boolean, null literal, comparison)
+   that the value cannot be a string *)
+Theorem C04_operator_escaped : forall (funcs : list bytes) (op : binop) (a b : jexpr) (toks : list tok),
+  cwrap funcs false (JBin op a b) = Some toks ->
+  exists txt p, toks = [TAct txt false false (AcPipe p)] /\ ends_in_escaper p.
+Proof. exact cwrap_operator_escaped. Qed.
+Print Assumptions C04_operator_escaped.
 
 (* an action whose pipeline ends in the escaper writes escape w for some w, whatever the data, the
    variables, the heap and the first command are *)
